@@ -41,18 +41,18 @@ thread_local! {
     static DICT: RefCell<HashMap<Vec<u8>, String>> = RefCell::new(HashMap::new());
 }
 
-fn term_of(d: &HeaderDigest) -> String {
+pub fn term_of(d: &HeaderDigest) -> String {
     DICT.with(|m| m.borrow().get(d.as_slice()).cloned()).unwrap_or_else(|| format!("?{}", &hex(d.as_slice())[..8]))
 }
 
-fn record(d: &HeaderDigest, t: String) {
+pub fn record(d: &HeaderDigest, t: String) {
     DICT.with(|m| {
         m.borrow_mut().insert(d.as_slice().to_vec(), t);
     });
 }
 
 /// Calls the real merge functions and records which term each produced digest stands for.
-struct RecMerge;
+pub struct RecMerge;
 impl Merge for RecMerge {
     type Item = HeaderDigest;
     fn merge(l: &HeaderDigest, r: &HeaderDigest) -> MMRResult<HeaderDigest> {
@@ -80,11 +80,11 @@ fn size_of_leaves(n: u64) -> u64 {
     if n == 0 { 0 } else { leaf_index_to_mmr_size(n - 1) }
 }
 
-fn parse_list(s: &str) -> Vec<u64> {
+pub fn parse_list(s: &str) -> Vec<u64> {
     if s == "-" { vec![] } else { s.split(',').map(|x| x.parse().expect("number list")).collect() }
 }
 
-fn join<T: ToString>(v: &[T], sep: &str) -> String {
+pub fn join<T: ToString>(v: &[T], sep: &str) -> String {
     if v.is_empty() { "-".into() } else { v.iter().map(|x| x.to_string()).collect::<Vec<_>>().join(sep) }
 }
 
